@@ -119,6 +119,23 @@ type c10Cfg struct {
 
 var c10Pids []string
 
+// c10Current is the %p of the agent under test (several agents of earlier configurations are still alive in the process).
+var c10Current string
+
+// c10IdleWhileWaiting: the current agent's dispatcher sits in its idle select while callers wait for a reply.
+func c10IdleWhileWaiting(gs []ovlGoroutine) (idle bool, waiters map[string]string) {
+	waiters = map[string]string{}
+	for _, g := range gs {
+		if len(g.Frames) > 0 && strings.HasSuffix(g.Frames[0], "(*store).dispatchRequests") && strings.Contains(g.Raw, "dispatchRequests("+c10Current) {
+			idle = strings.HasPrefix(g.State, "select")
+		}
+		if strings.HasPrefix(g.State, "chan receive") && len(g.Frames) > 0 && strings.Contains(g.Frames[0], "whawty-auth.(*Store).") {
+			waiters[g.ID] = g.Frames[0]
+		}
+	}
+	return
+}
+
 func c10Hooks(dir string) {
 	os.MkdirAll(dir, 0755) //nolint:errcheck
 	w := func(name, body string, mode os.FileMode) {
@@ -276,6 +293,7 @@ func c10Run(R *vr.Result, rng *rand.Rand, c c10Cfg, occ map[string]int) {
 		return
 	}
 	iface := s.GetInterface()
+	c10Current = fmt.Sprintf("%p", s)
 	var web *httptest.Server
 	sock := ""
 	if c.Frontend {
@@ -512,6 +530,37 @@ func c10Watch(R *vr.Result, name string, done chan struct{}, completed, inflight
 						break
 					}
 					s2, b2, w2, _ = ovlDispatcherState(ovlDump(), 0)
+				}
+				if !b1 {
+					// not blocked: is the dispatcher idle although callers are waiting for their reply? (a request that
+					// was taken from its queue and never answered) - the same caller goroutines in every dump over 21 s
+					idle, w0 := c10IdleWhileWaiting(ovlDump())
+					lost := idle && len(w0) > 0
+					for k := 0; k < 20 && lost; k++ {
+						time.Sleep(time.Second)
+						if atomic.LoadInt64(completed) != cur {
+							lost = false
+							break
+						}
+						i2, wk := c10IdleWhileWaiting(ovlDump())
+						for id := range w0 {
+							if _, ok := wk[id]; !ok {
+								delete(w0, id)
+							}
+						}
+						lost = i2 && len(w0) > 0
+					}
+					if lost {
+						var fn string
+						for _, f := range w0 {
+							fn = f
+						}
+						if i := strings.LastIndex(fn, "."); i > 0 {
+							fn = fn[i+1:]
+						}
+						R.Violate("c10:request-never-answered:dispatcher-idle:"+fn, fmt.Sprintf("no request completed for %.1f s with %d outstanding; in every goroutine dump over the following 21 s the dispatcher of the agent sits in its idle select while the same %d caller goroutines wait for a reply in %s: their requests were taken from the queue and never answered", float64(still)/2, atomic.LoadInt64(inflight), len(w0), fn), name, map[string]any{"waiting_callers": w0})
+						return "lost"
+					}
 				}
 				if b1 && b2 && w1 == w2 {
 					site := w1
